@@ -639,19 +639,47 @@ def _save_key(fi):
 
 
 def _set_key(fi):
+    """(key attribute, version attribute, saved + 1?) of a set_version implementation - locals are followed through their
+    assignments, so `v = lookup.get(obj.Handle); if v is not None: obj.X = v + 1` and a variant that computes `v + 1` into a
+    local first (or binds the handle to a local) read the same."""
+    la = local_assignments(fi.node)
+
+    def values(e, depth=4):
+        if isinstance(e, ast.Name) and depth > 0 and e.id in la:
+            out = []
+            for v in la[e.id]:
+                if isinstance(v, ast.Constant) and v.value is None:
+                    continue
+                out.extend(values(v, depth - 1))
+            return out
+        return [e]
     key = ver = None
     plus1 = False
     for n in walk_no_nested(fi.node):
-        if isinstance(n, ast.Call) and unparse(n.func) == 'self.handle_version_lookup.get' and n.args and \
-                isinstance(n.args[0], ast.Attribute):
-            key = n.args[0].attr
+        if isinstance(n, ast.Call) and unparse(n.func) == 'self.handle_version_lookup.get' and n.args:
+            ks = [k for k in values(n.args[0]) if isinstance(k, ast.Attribute)]
+            if len(ks) == 1:
+                key = ks[0].attr
         if isinstance(n, ast.Assign) and isinstance(n.targets[0], ast.Attribute) and \
                 n.targets[0].attr in ('StateVersion', 'DescriptorVersion'):
             ver = n.targets[0].attr
-            v = n.value
-            plus1 = isinstance(v, ast.BinOp) and isinstance(v.op, ast.Add) and isinstance(v.right, ast.Constant) \
-                and v.right.value == 1 and isinstance(v.left, ast.Name)
+            vs = values(n.value)
+            plus1 = bool(vs) and all(
+                isinstance(v, ast.BinOp) and isinstance(v.op, ast.Add) and isinstance(v.right, ast.Constant)
+                and v.right.value == 1 and any(isinstance(x, ast.Call) and unparse(x.func) == 'self.handle_version_lookup.get'
+                                               for x in values(v.left)) for v in vs)
     return key, ver, plus1
+
+
+def _filtered_param(fi, name, params) -> bool:
+    """The local `name` is bound once, to `[x for x in <param> if x is not None]` (the elements that have a version to save)."""
+    from .common import none_test
+    vals = local_assignments(fi.node).get(name, [])
+    if len(vals) != 1 or not isinstance(vals[0], (ast.ListComp, ast.GeneratorExp)) or len(vals[0].generators) != 1:
+        return False
+    gen = vals[0].generators[0]
+    return isinstance(gen.iter, ast.Name) and gen.iter.id in params and all(none_test(t) for t in gen.ifs) and \
+        isinstance(vals[0].elt, ast.Name) and isinstance(gen.target, ast.Name) and vals[0].elt.id == gen.target.id
 
 
 def _save_before_rm(repo, cls_q, method):
@@ -693,7 +721,8 @@ def _save_before_rm(repo, cls_q, method):
                     if any((txt.endswith(' is None') and pol is True) for txt, pol in facts):
                         out = True
                 elif n.kind == 'branch' and n.label == 'done' and isinstance(n.stmt.iter, ast.Name) and \
-                        n.stmt.iter.id in params and not any(isinstance(x, ast.Break) for x in ast.walk(n.stmt)):
+                        (n.stmt.iter.id in params or _filtered_param(fi, n.stmt.iter.id, params)) and \
+                        not any(isinstance(x, ast.Break) for x in ast.walk(n.stmt)):
                     # `for obj in <the objects to remove>`: after the loop every element went through the body; when every
                     # path through the body saved the version, all of them are saved (no element: nothing to save)
                     head = n.pred[0]
